@@ -383,6 +383,9 @@ def build_pool(cs, ctx):
         x = series_values(kind)
         if cs.flip(f"v{j}.nan", 20) and dt.startswith("f"):
             x[rs.randint(0, N, size=max(1, N // 15))] = np.nan
+        if cs.flip(f"v{j}.inf", 15) and dt.startswith("f"):
+            x[rs.randint(0, N, size=2)] = np.inf
+            x[rs.randint(0, N)] = -np.inf
         if dt == "f4":
             x = x.astype(np.float32)
         elif dt == "i8":
@@ -692,7 +695,8 @@ def catalogue():
                                       excludenull=o["ex"]))(f),
             lambda cs: {"u": uu(cs, "tr"), "ex": cs.flip("ex", 50)})
         add("metrics." + nm + "(default trans)", [OBS, SIM],
-            (lambda f: lambda a, o: f(a.obs, a.sim))(f), weight=1)
+            (lambda f: lambda a, o: f(a.obs, a.sim, excludenull=o["ex"]))(f),
+            lambda cs: {"ex": cs.flip("ex", 60)}, weight=2)
     add("metrics.corr", [OBS, ENS, TR],
         lambda a, o: metrics.corr(a.obs, a.ens, trans=set_tr(a.tr, o["u"]),
                                   type=o["type"], stat=o["stat"]),
@@ -1046,6 +1050,29 @@ def catalogue():
         lambda a, o: hgrid.delineate_river(
             a.fd, o["c"] % int(a.fd.nrows * a.fd.ncols), nval=200),
         lambda cs: {"c": cs.draw("c", 81)})
+    def get_grid_twice(a, o):
+        """Two consecutive calls; in between a temp cleaner has gone over
+        whatever the first call left in the temporary directory."""
+        g1 = hgrid.get_grid(o["name"])
+        d1 = rdigest(g1)
+        clean_tempdir()
+        try:
+            g2 = hgrid.get_grid(o["name"])
+        except Exception as e:
+            raise Violation("consecutive_calls_differ",
+                            f"get_grid({o['name']!r}) returned a grid, the "
+                            f"same call right after raised {e!r}",
+                            "grid.get_grid")
+        if rdigest(g2) != d1:
+            raise Violation("consecutive_calls_differ",
+                            f"get_grid({o['name']!r}) twice: the second call "
+                            f"returned another grid (sum {float(np.nansum(g1.data))}"
+                            f" then {float(np.nansum(g2.data))})",
+                            "grid.get_grid")
+        return g2
+    add("grid.get_grid", [], get_grid_twice,
+        lambda cs: {"name": cs.choice("name", ["AWAP", "WATERDYN"])},
+        weight=1)
     add("grid.gsmooth", [G], lambda a, o: hgrid.gsmooth(
         a.g, coastwin=o["w"], sigma=o["s"], minval=o["mv"]),
         lambda cs: {"w": cs.choice("w", [50, 3]),
@@ -1241,6 +1268,11 @@ def execute_call(c, pool, entries, ctx, log, snaps):
         finally:
             if e.plot:
                 plt.close("all")
+    # ---- a temp cleaner: whatever a call left behind in the temporary
+    # directory is not there (intact) any more at the next call
+    nleft = clean_tempdir()
+    if nleft:
+        ctx.hit("fault.tempdir_leftovers_truncated", nleft)
     # ---- arguments untouched, other pool objects untouched, canaries intact
     bound = set(c["ids"].values())
     allowed = {c["ids"][p] for p in e.outs if p in c["ids"]}
@@ -1329,7 +1361,40 @@ def scribble_result(res, pool, depth=0, arrays=None):
     return n
 
 
+_TMPDIR = [None]
+
+
+def clean_tempdir():
+    d = _TMPDIR[0]
+    n = 0
+    if d and os.path.isdir(d):
+        for root, _, files in os.walk(d):
+            for f in files:
+                try:
+                    with open(os.path.join(root, f), "r+b") as fo:
+                        fo.truncate(0)
+                    n += 1
+                except OSError:
+                    pass
+    return n
+
+
 def run_session(cs, log, ctx, order_seed=None, collect=None):
+    import tempfile
+    d = tempfile.mkdtemp(prefix="hyverif-tmp-", dir="/dev/shm")
+    _TMPDIR[0] = d
+    old_tmp = tempfile.tempdir
+    tempfile.tempdir = d
+    os.environ["TMPDIR"] = d
+    try:
+        return _run_session(cs, log, ctx, order_seed, collect)
+    finally:
+        tempfile.tempdir = old_tmp
+        import shutil
+        shutil.rmtree(d, ignore_errors=True)
+
+
+def _run_session(cs, log, ctx, order_seed=None, collect=None):
     entries = catalogue()
     with cs.span("pool"):
         pool = build_pool(cs, ctx)
